@@ -45,7 +45,7 @@ func runC01(c *Ctx) {
 		req := paramOf(f, 0)
 		isReq := vOrigins(oIsValue(req))
 		calls := callsIn(f, s.callee)
-		c.obF("R01.1", f, "asks-router", len(calls) == 1, "the context asks the router once", fmt.Sprintf("%d calls", len(calls)))
+		c.obRF("R01.1", f, "asks-router", len(calls) == 1, "the context asks the router once", fmt.Sprintf("%d calls", len(calls)))
 		for _, ci := range calls {
 			_, a := callArgs(ci.Common())
 			okM := vFieldLoad("net/http.Request", "Method", isReq)(a[0])
@@ -66,7 +66,7 @@ func runC01(c *Ctx) {
 	for _, f := range []*ssa.Function{lk, om} {
 		method, pth := paramOf(f, 0), paramOf(f, 1)
 		calls := callsIn(f, "(*rt/middleware/denco.Router).Lookup")
-		c.obF("R01.2", f, "asks-trie", len(calls) == 1, "one trie lookup", fmt.Sprintf("%d", len(calls)))
+		c.obRF("R01.2", f, "asks-trie", len(calls) == 1, "one trie lookup", fmt.Sprintf("%d", len(calls)))
 		for _, ci := range calls {
 			_, a := callArgs(ci.Common())
 			ok, bad := allOrigins(a[0], oCallWhere(-1, "path.Clean", func(cl *ssa.Call) bool {
@@ -135,10 +135,10 @@ func runC01(c *Ctx) {
 				okK, _ := allOrigins(l.Index, oIsValue(up))
 				c.obI("R01.2", l, "router-by-upper-method", okK, "the router is selected by the upper-cased method", "key "+describe(l.Index))
 			}
-			c.obF("R01.2", f, "selects-router", n == 1, "Lookup selects the method's router", "")
+			c.obRF("R01.2", f, "selects-router", n == 1, "Lookup selects the method's router", "")
 		} else {
 			loops := mapLoops(f, vFieldLoad("rt/middleware.defaultRouter", "routers", nil))
-			c.obF("R01.2", f, "scans-routers", len(loops) == 1, "OtherMethods scans every method's router", "")
+			c.obRF("R01.2", f, "scans-routers", len(loops) == 1, "OtherMethods scans every method's router", "")
 			// the own method is excluded by comparison with the upper-cased method; every other router is probed
 			for _, l := range loops {
 				key := extractOf(l.Next, 1)
@@ -210,7 +210,7 @@ func runC01(c *Ctx) {
 
 	// R01.4
 	nr := callsIn(ar, "rt/middleware/denco.NewRecord")
-	c.obF("R01.4", ar, "creates-record", len(nr) == 1, "AddRoute creates one trie record", "")
+	c.obRF("R01.4", ar, "creates-record", len(nr) == 1, "AddRoute creates one trie record", "")
 	pathP := paramOf(ar, 1)
 	for _, ci := range nr {
 		a := ci.Common().Args
@@ -252,7 +252,7 @@ func runC01(c *Ctx) {
 	}
 	dr := p.Fn("rt/middleware.DefaultRouter")
 	adds := callsIn(dr, "(*rt/middleware.defaultRouteBuilder).AddRoute")
-	c.obF("R01.4", dr, "routes-operations", len(adds) == 1, "DefaultRouter routes the spec's operations", "")
+	c.obRF("R01.4", dr, "routes-operations", len(adds) == 1, "DefaultRouter routes the spec's operations", "")
 	for _, ci := range adds {
 		_, a := callArgs(ci.Common())
 		okJ, bad := allOrigins(a[1], oCallWhere(-1, "path.Join", func(j *ssa.Call) bool {
@@ -285,7 +285,7 @@ func runC01(c *Ctx) {
 	nrt := p.Fn("rt/middleware.NewRouter")
 	h := c.theHandlerClosure(nrt)
 	ris := callsIn(h, "(*rt/middleware.Context).RouteInfo")
-	c.obF("R01.5", h, "asks-route", len(ris) == 1, "the router middleware asks for the route once", "")
+	c.obRF("R01.5", h, "asks-route", len(ris) == 1, "the router middleware asks for the route once", "")
 	if len(ris) == 1 {
 		ri := ris[0].(*ssa.Call)
 		okv, rctx := resultOf(ri, 2), resultOf(ri, 1)
@@ -424,7 +424,26 @@ func rulePathValuesDecodedOnce(c *Ctx, rule string) {
 	lk := p.Fn("(*rt/middleware.defaultRouter).Lookup")
 	isCaptured := vFieldLoad(dencoParamT, "Value", nil)
 	unesc := callsIn(lk, "net/url.PathUnescape")
-	c.obF(rule, lk, "unescapes", len(unesc) == 1, "captured values are percent-decoded", fmt.Sprintf("%d PathUnescape calls", len(unesc)))
+	c.obRF(rule, lk, "unescapes", len(unesc) == 1, "captured values are percent-decoded", fmt.Sprintf("%d PathUnescape calls", len(unesc)))
+	// whatever the shape: the captured text is decoded by url.PathUnescape and nothing else ('+' stays '+'), and a value
+	// handed on is never the raw captured text when no decoding is attempted at all
+	for _, ci := range allCalls(lk) {
+		n := calleeName(ci.Common())
+		if !strings.HasPrefix(n, "net/url.") || !strings.Contains(n, "nescape") || len(ci.Common().Args) == 0 {
+			continue
+		}
+		if !isCaptured(ci.Common().Args[0]) && !vFieldLoadO(dencoParamT, "Value")(ci.Common().Args[0]) {
+			continue
+		}
+		c.obI(rule, ci, "decoded-as-a-path-segment", n == "net/url.PathUnescape", "a captured path segment is decoded with url.PathUnescape (query decoding would turn '+' into a space)", "decoded with "+n)
+	}
+	if len(unesc) == 0 {
+		for _, st := range fieldStores(lk, routeParamT, "Value") {
+			if okRaw, _ := allOrigins(st.Val, func(o Origin) bool { return isCaptured(o.V) }); okRaw {
+				c.obI(rule, st, "value-decoded-once", false, "a path-parameter value is the PathUnescape of the captured text", "the raw (still encoded) captured text is handed on and nothing decodes it")
+			}
+		}
+	}
 	if len(unesc) == 1 {
 		u := unesc[0].(*ssa.Call)
 		c.obI(rule, u, "unescapes-captured-text", isCaptured(u.Call.Args[0]), "the text decoded is the text the trie captured", "argument "+describe(u.Call.Args[0]))
@@ -468,7 +487,7 @@ func rulePathValuesDecodedOnce(c *Ctx, rule string) {
 			_, why := isV(st.Val)
 			c.obI(rule, st, "value-decoded-once", okC, "a path-parameter value is the PathUnescape of the captured text, directly or split by the composite decoder", why)
 		}
-		c.obF(rule, lk, "hands-values-on", nVal >= 2, "Lookup builds RouteParams", "")
+		c.obRF(rule, lk, "hands-values-on", nVal >= 2, "Lookup builds RouteParams", "")
 		for _, d := range dcs {
 			a := d.Common().Args
 			okN := vFieldLoad(dencoParamT, "Name", nil)(a[0])
